@@ -82,3 +82,8 @@ PROPS["C10"] = dict(pkg="c10", shards=16, level="exploration",
     level_text="Exploration: valid descriptions of generated scopes and plugin schemas are mutated at every node (delete / rename / retype / re-point / unparsable texts / bad unit multipliers), loaded through UnserializeScope / UnserializeSchema in a supervised worker and, when accepted, exercised with generated inputs; panics, fatal errors and hangs at load time or on first use are violations.",
     level_note="The quick tier runs a generated sample (about 400 per description) of each description's mutation enumeration, the thorough tier all of it; Client.ReadSchema is exercised by C08's hello-message faults (it is UnserializeSchema behind a CBOR decode).",
     cap_s={"quick": 900, "thorough": 3400})
+
+PROPS["C11"] = dict(pkg="c11", shards=16, level="exploration", race=True,
+    technique="property-based testing (rapid) over generated callable schemas and call histories, sequential and barrier-released concurrent, built with -race; oracle = recording handlers compared with a second identically built instance of every scope, errors.As on the documented error types, step-data identity per run ID",
+    level_text="Exploration: generated steps (with and without signals / initializer), scripted handler behaviours and histories of step and signal calls over a small pool of run IDs, executed sequentially or concurrently under the race detector; invocation counts, arguments, returned triples, error types and step-data identity are checked against an independent second instance of each schema.",
+    level_note="Handlers are generic over `any` input so that the input type assertion inside Call cannot fail; scopes are map-based; concurrency explores whatever interleavings the scheduler produces for barrier-released goroutines (the race detector reports unsynchronised access).")
